@@ -131,11 +131,24 @@ fcache_get_mmap(struct fcache *fc, struct fcache_entry *fce,
 {
 	struct cache_entry *ce;
 	off_t blkpos;
+	off_t avail;
 	size_t off;
 
 	blkpos = pos & ~(off_t)(fc->pgsz - 1);
-	if (blkpos >= fc->info[fidx].filesz)
+	if (blkpos < 0 || blkpos >= fc->info[fidx].filesz)
 		return KDUMP_ERR_NODATA;
+
+	/* Pages that lie wholly beyond EOF must not be handed out:
+	 * touching them raises SIGBUS. The EOF page itself is
+	 * zero-filled by the kernel.
+	 */
+	avail = fc->info[fidx].filesz - blkpos;
+	if (avail < (off_t)fc->mmapsz) {
+		avail += (off_t)(fc->pgsz - 1) -
+			((avail - 1) & (off_t)(fc->pgsz - 1));
+		avail -= pos - blkpos;
+	} else
+		avail = fc->mmapsz;
 
 	blkpos = pos & ~(off_t)(fc->mmapsz - 1);
 	ce = cache_get_entry(fc->cache, blkpos | fidx);
@@ -156,6 +169,8 @@ fcache_get_mmap(struct fcache *fc, struct fcache_entry *fce,
 	fce->ce = ce;
 	off = pos & (fc->mmapsz - 1);
 	fce->len = fc->mmapsz - off;
+	if (fce->len > avail)
+		fce->len = avail;
 	fce->data = ce->data + off;
 	fce->cache = fc->cache;
 	return KDUMP_OK;
